@@ -598,7 +598,9 @@ def plan_C07(rep, seed, tier):
     run_mc_set(rep, binp, mcq, 'Layer I incl. the max_*_buffer_length formulas (MaxLen.tla): InvokeQueried issues every call with the formula value in '
                'every reachable state; the monitor budget conjunct (C07.insufficient) is part of NoViolation; replay of every (state, call) pair uses the REAL query and compares its value with the formula',
                export='steps')
-    mce = MC_ENC_THOROUGH if tier == 'thorough' else [
+    # per-transition export prints one history per generated step: the big thorough encoder configurations (12-letter alphabets,
+    # MaxPend 3..4) would take the better part of an hour each that way; they are explored per state in C04
+    mce = MC_ENC_QUICK + MC_ENC_THOROUGH[9:11] + MC_ENC_THOROUGH[13:16] if tier == 'thorough' else [
         E('GBK', 'utf8', True, 2, [14, 15, 64], [0x41, 0x80, 0x20AC, 0x4E00, 0x1F4A9]),
         E('gb18030', 'utf16', False, 2, [4, 5, 64], [0x41, 0x80, 0x4E00, 0xE5E5, 0x1F4A9, 0xD83D]),
         E('ISO-2022-JP', 'utf16', False, 2, [4, 5, 64], [0x41, 0xA5, 0x3042, 0xFF61, 0x1F4A9, 0xD83D]),
